@@ -93,6 +93,7 @@ class Exec:
         self.sqrt_cache = {}
         self.fresh = 0
         self.pow_apps = []
+        self.divw = {}
         self.u2r = {}
         self.binfo = {}      # INT mode: expr id -> (known-zero low bits, max significant bits)
         self.cur_pc = None
@@ -639,12 +640,18 @@ class Exec:
                 if "nuw" in flags:
                     self.ub_check(z3.And(raw >= 0, raw < M), "UB:unsigned overflow (nuw) in %s i%d" % (op, bits))
                 return raw % M
-            if op == "udiv":
+            if op in ("udiv", "urem"):
                 self.ub_check(b != 0, "UB:division by zero")
-                return a / b
-            if op == "urem":
-                self.ub_check(b != 0, "UB:division by zero")
-                return a % b
+                cb = self.concrete_int(b)
+                if cb is not None or os.environ.get("VP_NO_DIVWITNESS"):
+                    return a / b if op == "udiv" else a % b
+                # Euclidean witnesses instead of div/mod terms (much easier for z3's nonlinear integer engine)
+                k = (a.get_id(), b.get_id())
+                if k not in self.divw:
+                    q, r = self.new("q", z3.IntSort()), self.new("r", z3.IntSort())
+                    self.side.append(z3.Implies(b > 0, z3.And(a == b * q + r, r >= 0, r < b, q >= 0, q <= a)))
+                    self.divw[k] = (q, r, a, b)
+                return self.divw[k][0] if op == "udiv" else self.divw[k][1]
             if op in ("sdiv", "srem"):
                 self.ub_check(b != 0, "UB:division by zero")
                 sa, sb = sgn(a), sgn(b)
